@@ -68,6 +68,17 @@ func c12Cells(tier string) []Cell {
 		}
 	}
 
+	// a memory limit (always exceeded) as the only configured trigger
+	for _, b := range backendKinds {
+		for s := 0; s < 3; s++ {
+			for _, f := range []float64{0.25, 0.5} {
+				for _, mem := range []string{"sys1only", "heap1only"} {
+					cells = append(cells, Cell{ID: c12Cell{Backend: b, Strategy: s, Limit: 6, Frac: f, Needed: "nil", Mem: mem}.id()})
+				}
+			}
+		}
+	}
+
 	return cells
 }
 
@@ -148,6 +159,16 @@ func c12One(cc c12Cell, cs c12Case) (string, string, string, int) {
 
 	if cc.Mem == "sys" || cc.Mem == "both" {
 		cfg.SysMemSoftLimit = 1 << 62
+	}
+
+	// a memory limit as the ONLY configured trigger, exceeded in every cycle: each cycle evicts EvictFraction of the
+	// entries, in strategy order
+	if cc.Mem == "sys1only" {
+		cfg.SysMemSoftLimit, cfg.CountSoftLimit = 1, 0
+	}
+
+	if cc.Mem == "heap1only" {
+		cfg.HeapInUseSoftLimit, cfg.CountSoftLimit = 1, 0
 	}
 
 	switch cc.Needed {
@@ -318,8 +339,9 @@ func c12One(cc c12Cell, cs c12Case) (string, string, string, int) {
 		}
 
 		removed := n - len(kept)
-		breach := n > cc.Limit
-		needed := cc.Needed == "true" || cc.Mem == "heap1"
+		memOnly := cc.Mem == "sys1only" || cc.Mem == "heap1only"
+		breach := n > cc.Limit && !memOnly
+		needed := cc.Needed == "true" || cc.Mem == "heap1" || memOnly
 
 		if !breach && !needed {
 			if removed != 0 {
